@@ -41,7 +41,7 @@ def enc_g(spec, smart):
         skip = "()"
     else:
         skip = ";".join(_chk(s) for s in spec["skip"])
-    items, tmpl, gen, seq, tp = [], [], [], [], []
+    items, tmpl, gen, seq, tp, ax = [], [], [], [], [], []
     for sym, alts in spec["prods"]:
         if isinstance(alts, dict):          # a template: its generated productions go to the model as data
             exp = expand_template(sym, alts, terminal_names(spec))
@@ -52,18 +52,35 @@ def enc_g(spec, smart):
             tp.append("%s~%s~%s" % (_chk(sym), alts["t"], ",".join("-" if a is None else _chk(str(a)) for a in alts["args"])))
             entries = exp
         else:
-            entries = [(sym, alts)]
+            flat = []
+            for a in alts:
+                if isinstance(a, dict):      # AnyTokenExcept: one-token alternatives in the iteration order of the set
+                    exp = [[t] for t in terminal_order(spec) if t not in a["ax"]]
+                    ax.append("%s@%d:%d:%s" % (_chk(sym), len(flat), len(exp), ",".join(_chk(x) for x in a["ax"]) or "-"))
+                    flat.extend(exp)
+                else:
+                    flat.append(a)
+            entries = [(sym, flat)]
         for k, aa in entries:
             items.append(_chk(k) + "=" + "|".join(
-                "~" if not a else ".".join(_chk(s) for s in a) for a in aa))
+                "!" if a is None else ("~" if not a else ".".join(_chk(s) for s in a)) for a in aa))
     prods = ";".join(items) or "-"
     start = "-" if spec["start"] is None else _chk(spec["start"])
     line = "g %d %s %s %s %s %s %s" % (1 if smart else 0, start, tok, syn, kw, skip, prods)
     if tmpl:
         line += " T=%s/%s/%s TP=%s" % (",".join(tmpl), ",".join(gen) or "-", ",".join(seq) or "-", ";".join(tp))
+    if ax:
+        line += " AX=" + ";".join(ax)
     if spec.get("kinds"):
         line += " K=" + ",".join("%s:%s" % kv for kv in sorted(spec["kinds"].items()))
     return line
+
+
+def terminal_order(spec):
+    """iteration order of `parser.terminals` at the time AnyTokenExcept is expanded (a Python set: the order is data)"""
+    tk = _llp()._Tokenizer(tokenizer_str(spec), synonyms=dict(spec["syn"]) or None,
+                           keywords={(t, v): t2 for t, v, t2 in spec["kw"]} or None)
+    return list(tk.get_all_token_names())
 
 
 def dec_g(line):
@@ -91,8 +108,8 @@ def dec_g(line):
         for it in f[7].split(";"):
             sym, alts = it.split("=")
             spec["prods"].append([sym, [] if alts == "" else [
-                [] if a == "~" else a.split(".") for a in alts.split("|")]])
-    spec["tmpl"], spec["gen"], spec["seq"], spec["tdefs"], spec["kinds"] = [], [], [], {}, {}
+                None if a == "!" else ([] if a == "~" else a.split(".")) for a in alts.split("|")]])
+    spec["tmpl"], spec["gen"], spec["seq"], spec["tdefs"], spec["kinds"], spec["ax"] = [], [], [], {}, {}, []
     for extra in f[8:]:
         if extra.startswith("T="):
             a, b, c = extra[2:].split("/")
@@ -103,7 +120,32 @@ def dec_g(line):
                 spec["tdefs"][sym] = {"t": kind, "args": [None if x == "-" else x for x in args.split(",")]}
         elif extra.startswith("K="):
             spec["kinds"] = dict(kv.split(":") for kv in extra[2:].split(","))
+        elif extra.startswith("AX="):
+            for it in extra[3:].split(";"):
+                head, cnt, excl = it.split(":")
+                sym, idx = head.split("@")
+                spec["ax"].append((sym, int(idx), int(cnt), [] if excl == "-" else excl.split(",")))
     return spec, smart
+
+
+def source_prods(spec):
+    """the `productions` argument as the caller wrote it, from a decoded spec: templates and AnyTokenExcept items
+    folded back, generated symbols dropped, None alternatives kept"""
+    if any(isinstance(a, dict) for _, a in spec["prods"]):
+        return spec["prods"]              # a generated spec already has this form
+    gen = set(spec.get("gen", ()))
+    out = []
+    for sym, alts in spec["prods"]:
+        if sym in gen:
+            continue
+        if sym in spec.get("tdefs", {}):
+            out.append([sym, dict(spec["tdefs"][sym])])
+            continue
+        alts = list(alts)
+        for s_, idx, cnt, excl in sorted([x for x in spec.get("ax", ()) if x[0] == sym], key=lambda x: -x[1]):
+            alts[idx:idx + cnt] = [{"ax": list(excl)}]
+        out.append([sym, alts])
+    return out
 
 
 def make_template(tdef):
@@ -265,14 +307,12 @@ def build(spec, smart, trace_budget=None):
     """-> (parser | None, reply)"""
     llp = _llp()
     prods = {}
-    gen = set(spec.get("gen", ()))
-    for sym, alts in spec["prods"]:
-        if sym in gen:
-            continue                      # created by a template
-        if sym in spec.get("tdefs", {}):
-            prods[sym] = make_template(spec["tdefs"][sym])
+    for sym, alts in source_prods(spec):
+        if isinstance(alts, dict):
+            prods[sym] = make_template(alts)
         else:
-            prods[sym] = [tuple(a) for a in alts]
+            prods[sym] = [None if a is None else (llp.AnyTokenExcept(*a["ax"]) if isinstance(a, dict) else tuple(a))
+                          for a in alts]
     kw = {(t, v): t2 for t, v, t2 in spec["kw"]}
     args = dict(productions=prods, synonyms=dict(spec["syn"]) or None, keywords=kw or None,
                 skip_tokens=as_kind(spec["skip"], spec.get("kinds", {}).get("skip", "set")),
@@ -445,7 +485,13 @@ def expanded_prods(spec):
         if isinstance(alts, dict):
             out.extend(expand_template(sym, alts, terminal_names(spec)))
         else:
-            out.append((sym, alts))
+            flat = []
+            for a in alts:
+                if isinstance(a, dict):
+                    flat.extend([t] for t in terminal_order(spec) if t not in a["ax"])
+                else:
+                    flat.append([] if a is None else a)
+            out.append((sym, flat))
     return out
 
 
@@ -727,6 +773,10 @@ VARIANTS = {
                   T=["a", "c", "SPACE"], lex={"a": "a", "c": "c", "_": "SPACE"}, sep="", noise="b"),
     "comment": dict(tok=[["SPACE", r"\s+"], ["COMMENT", r"\#"], ["a", "a"], ["b", "b"], ["c", "c"]], syn={}, kw=[],
                     skip=None, T=["a", "b", "c"], lex={"a": "a", "b": "b", "c": "c"}, sep=" ", noise="#"),
+    "kwskip1": dict(tok=[["SPACE", r"\s+"], ["w", "[a-d]"]], syn={}, kw=[["w", "a", "a"], ["w", "b", "b"]],
+                    skip=["SPACE", "b"], T=["a", "b", "w"], lex={"a": "a", "b": "b", "c": "w", "d": "w"}, sep=" ", noise=""),
+    "kwskip2": dict(tok=[["SPACE", r"\s+"], ["W0", "[a-d]"]], syn={"W0": "w"}, kw=[["w", "a", "a"], ["w", "b", "b"]],
+                    skip=["SPACE", "w"], T=["a", "b", "w"], lex={"a": "a", "b": "b", "c": "w", "d": "w"}, sep=" ", noise=""),
     "skipiter": dict(tok=[["SPACE", "_"], ["a", "a"], ["b", "b"], ["c", "c"]], syn={}, kw=[], skip=["SPACE", "b"],
                      T=["a", "b", "c"], lex={"a": "a", "b": "b", "c": "c", "_": "SPACE"}, sep="", noise="_"),
     "free": dict(tok=[["SPACE", r"[\ \t]+"], ["a", "a"], ["b", "b"], ["w", r"[^ab\ \t\n]+"]], syn={}, kw=[], skip=None,
@@ -837,8 +887,37 @@ def gen_shaped(rng, T, nts):
     return g
 
 
+def gen_unitalias(rng, T, nts):
+    """LL(1) grammars with unit productions over a nullable symbol declared before productions that start with the
+    same symbol: S -> X t Y ; X -> A ; A -> a | <empty> ; Y -> A c | t d (FIRST(A) is shared by several rules, FOLLOW
+    of the alias differs)"""
+    if len(nts) < 4:
+        return None
+    S, X, A, Y = nts[:4]
+    t = list(T)
+    rng.shuffle(t)
+    g = {S: [[X, t[1], Y]], X: [[A]], A: [[t[0]], []], Y: [[A, t[2]], [t[1], t[0]]]}
+    if rng.random() < 0.5:
+        rng.shuffle(g[A])
+    if rng.random() < 0.3:
+        g[Y].reverse()
+    for extra in nts[4:]:
+        g[extra] = [[rng.choice(t)]]
+        g[S][0].append(extra)
+    order = list(nts)
+    if rng.random() < 0.5:
+        order = [S, X, A, Y] + list(nts[4:])
+    else:
+        rng.shuffle(order)
+    return [[k, g[k]] for k in order]
+
+
 def gen_ll1ish(rng, T, nts):
     """alternatives of a symbol start with distinct terminals (or a later non-terminal); at most one empty"""
+    if rng.random() < 0.12:
+        r = gen_unitalias(rng, T, nts)
+        if r is not None:
+            return r
     g = []
     for i, nt in enumerate(nts):
         firsts = list(T)
@@ -1032,11 +1111,20 @@ def gen_malformed(rng, T, nts):
         g.append(["Q__1", [[T[0]]]])
         g[0][1].append(["Q__1"])
     elif kind == "dunder-rhs":
-        # a reserved name on a right-hand side: the helper symbol of an existing key, or any other `__` name
+        # a reserved name on a right-hand side: the helper symbol of an existing key, or any other `__` name; at any
+        # position of the alternatives list, in particular behind a None / AnyTokenExcept alternative
         name = rng.choice([g[0][0] + "__S00", sym + "__S00", sym + "__S01", "Q__1", g[0][0] + "__S00__S00"])
-        alts.insert(rng.randint(0, len(alts)), [name] if rng.random() < 0.5 else [rng.choice(T), name])
-        if rng.random() < 0.7:      # make sure a helper of that name really exists
-            g[0][1][:0] = [[T[0], T[1]], [T[0], T[2]]]
+        bad = [name] if rng.random() < 0.3 else (
+            [rng.choice(T), name] if rng.random() < 0.5 else [name, rng.choice(T)])
+        alts.insert(rng.randint(0, len(alts)), bad)
+        k = alts.index(bad)
+        r = rng.random()
+        if r < 0.35:
+            alts.insert(rng.randint(0, k), None)
+        elif r < 0.6:
+            alts.insert(rng.randint(0, k), {"ax": rng.sample(T, rng.randint(0, 2))})
+        if rng.random() < 0.8:      # a helper of that name really exists (a common prefix of two symbols survives the smart undo)
+            g[0][1][:0] = [[T[0], T[1], T[0]], [T[0], T[1], T[2]]]
     elif kind == "duplicate-alt":
         a = rng.choice(alts) if alts else [T[0]]
         alts.insert(rng.randint(0, len(alts)), list(a))
@@ -1178,7 +1266,7 @@ def gen_templates(rng, T, nts):
             members = rng.sample(T + plain, rng.randint(1, min(3, len(T + plain))))
             tdefs.append([k, {"t": "seq", "args": members}])
         elif kind == "list":
-            br = rng.random() < 0.6
+            br = rng.random() < 0.5
             delim = rng.choice(T)
             tdefs.append([k, {"t": "list", "args": [rng.choice(T) if br else None, rng.choice(plain + T), delim,
                                                       rng.choice(T) if br else None,
@@ -1191,6 +1279,17 @@ def gen_templates(rng, T, nts):
     top = [[rng.choice(tkeys)] + ([rng.choice(T)] if rng.random() < 0.7 else [])]
     for _ in range(rng.randint(0, 2)):
         top.append([rng.choice(T)] + [rng.choice(tkeys + plain + T) for _ in range(rng.randint(0, 2))])
+    # recursion THROUGH the templates, both kinds: a plain symbol (member / item of a template) that starts with the
+    # template again (a cycle when the container has no brackets or is a sequence; harmless behind brackets), and right
+    # recursion behind a container: X -> (container, X) | ()
+    r = rng.random()
+    if r < 0.35:
+        for e in g:
+            if rng.random() < 0.6:
+                e[1].append([rng.choice(tkeys)] + [rng.choice(T)] * rng.randint(0, 1))
+    elif r < 0.7:
+        tk = rng.choice(tkeys)
+        top = [[tk, start], []] if rng.random() < 0.6 else [[rng.choice(plain), tk, start], [rng.choice(T)]]
     out = [[start, _dedupe(top)]] + tdefs + g
     if rng.random() < 0.4:
         rng.shuffle(out)
@@ -1210,7 +1309,7 @@ def gen_spec(rng, malformed_share=0.05, hidden_share=0.04, ll1_share=0.2, dfs_sh
              tmpl_share=0.05):
     """-> (spec, variant name, meta)"""
     var_name = rng.choice(["plain"] * 4 + ["syn", "kw", "synkw", "noskip", "swap", "spaceterm", "skipb", "comment",
-                           "skipiter", "free"])
+                           "skipiter", "free", "kwskip1", "kwskip2"])
     var = VARIANTS[var_name]
     T = list(var["T"])
     pool = list(rng.choice(NT_POOLS))
@@ -1246,11 +1345,20 @@ def gen_spec(rng, malformed_share=0.05, hidden_share=0.04, ll1_share=0.2, dfs_sh
             g, gen = gen_nonleftrec(rng, T, nts), "nonleftrec"
         else:
             g, gen = gen_shaped(rng, T, nts), "shaped"
+    anytok = False
     start = nts[0]
     if start == "E" and rng.random() < 0.5:
         start = None                 # start_symbol_name not passed: the constructor's default 'E'
     if rng.random() < 0.2 and gen not in ("malformed", "firstchain", "templates"):
         rng.shuffle(g)               # dict order (sort_n, prods_map order) independent of the start symbol
+    if gen != "malformed":
+        for e in g:
+            if isinstance(e[1], list):
+                e[1][:] = [None if (a == [] and rng.random() < 0.4) else a for a in e[1]]
+        if rng.random() < 0.06:
+            tgt = rng.choice([e for e in g if isinstance(e[1], list)])
+            tgt[1].insert(rng.randint(0, len(tgt[1])), {"ax": rng.sample(T, rng.randint(1, len(T)))})
+            anytok = True
     emptykey = False
     if gen != "malformed" and rng.random() < 0.08:
         # a key with an empty list of alternatives (legal for the constructor), unreferenced or referenced
@@ -1267,6 +1375,8 @@ def gen_spec(rng, malformed_share=0.05, hidden_share=0.04, ll1_share=0.2, dfs_sh
     meta = {"gen": gen, "nts": len(nts), "start": "default" if start is None else "explicit"}
     if emptykey:
         meta["emptykey"] = 1
+    if anytok:
+        meta["anytoken"] = 1
     if spec.get("kinds"):
         meta["skipkind"] = spec["kinds"]["skip"]
     if kind == "bad-skip":           # skip_tokens names a token the tokenizer does not know: GrammarError
@@ -1290,9 +1400,10 @@ def gen_ll_cases(rng, n_grammars, maxlen, extra_long=0, rec_maxlen=2, malformed_
         meta["ref"] = "malformed" if not ok else ("left-recursive" if rec else "ok")
         ml = maxlen if (ok and not rec) else rec_maxlen
         words = list(all_strings(var["T"], ml))
+        names = set(var["lex"].values()) | ({"w"} if "free" in var else set())
         if ok and not rec:
             for w in sample_sentences(rng, user_grammar(spec), start_of(spec), sentences, sent_maxlen):
-                if w not in words:
+                if w not in words and all(t in names for t in w):   # AnyTokenExcept also lists the skipped names
                     words.append(w)
             for _ in range(extra_long):
                 words.append([rng.choice(var["T"]) for _ in range(rng.randint(maxlen + 1, maxlen + 2))])
@@ -1319,7 +1430,7 @@ def gen_ll_cases(rng, n_grammars, maxlen, extra_long=0, rec_maxlen=2, malformed_
             others = [k for k in ug if k != start_of(spec)]
             for _ in range(min(3, len(others))):
                 x = rng.choice(others)
-                sent = sample_sentences(rng, ug, x, 2, 5)
+                sent = [w for w in sample_sentences(rng, ug, x, 2, 5) if all(t in names for t in w)]
                 for w in sent[:2] or [rng.choice(words)]:
                     seqs.append((x, render(rng, var, w)))
             if rng.random() < 0.15:      # not a key: AssertionError, and nothing may stick
@@ -1382,6 +1493,7 @@ def tiny_grammars(rng, max_nt=2, max_alts=3, max_len=3, terminals=("a", "b"), li
 def _respec(case):
     """decode the case back into (spec, texts, diags)"""
     spec, _ = dec_g(case["lines"][0])
+    spec["prods"] = source_prods(spec)
     texts, diags, seqs = [], [], []
     lines = case["lines"][1:]
     i = 0
@@ -1430,15 +1542,22 @@ def shrink(case):
             s2 = dict(spec)
             s2["prods"] = spec["prods"][:i] + spec["prods"][i + 1:]
             out.append(mk(s2, texts))
+    def cp(prods):
+        return [[s_, (dict(a) if isinstance(a, dict) else [x if not isinstance(x, list) else list(x) for x in a])]
+                for s_, a in prods]
     for i, (sym, alts) in enumerate(spec["prods"]):
+        if isinstance(alts, dict):
+            continue
         for j in range(len(alts)):
             s2 = dict(spec)
-            s2["prods"] = [[s, list(a)] for s, a in spec["prods"]]
-            s2["prods"][i][1] = alts[:j] + alts[j + 1:]
+            s2["prods"] = cp(spec["prods"])
+            s2["prods"][i][1] = s2["prods"][i][1][:j] + s2["prods"][i][1][j + 1:]
             out.append(mk(s2, texts))
+            if not isinstance(alts[j], list):
+                continue
             for k in range(len(alts[j])):
                 s3 = dict(spec)
-                s3["prods"] = [[s, [list(x) for x in a]] for s, a in spec["prods"]]
+                s3["prods"] = cp(spec["prods"])
                 s3["prods"][i][1][j] = alts[j][:k] + alts[j][k + 1:]
                 out.append(mk(s3, texts))
     for t in texts:
@@ -1540,7 +1659,7 @@ def tags(case, replies):
         yield "start:" + m["start"]
     if "malformed" in m:
         yield "malformed:" + m["malformed"]
-    for k in ("emptykey", "parsers", "skipkind", "threads"):
+    for k in ("emptykey", "parsers", "skipkind", "threads", "anytoken"):
         if k in m:
             yield "%s:%s" % (k, m[k])
     for line, rep in zip(case["lines"], replies):
